@@ -28,7 +28,7 @@ EXPLANATION = (
     "found it; does not decide message *texts*."
 )
 ASSUMPTIONS = [
-    "user-supplied callbacks (template_fn, post_template_fn, template_override_funcs, node handlers) do not touch expand_stack",
+    "user-supplied callbacks (template_fn, post_template_fn, template_override_funcs, node handlers) do not touch expand_stack themselves (they may re-enter expand(); an exception out of that nested call leaves its frames on the path)",
     "exceptions that propagate out of expand()/parse() are outside the property (it speaks of calls that return)",
     "a callee analysed by this rule is assumed balanced at its call sites; its own imbalance is reported at its own exits",
 ]
@@ -125,6 +125,10 @@ class Balance(Flow):
         for b in st.body:
             for callee in self.cg.callees_in(self.qual, b):
                 if callee in self.push_reach or callee == "%expander":
+                    reach = True
+                # a user hook may re-enter expand() (the documented use of template_fn / post_template_fn); when that nested
+                # expansion raises, the frames it pushed are still on the path when the exception arrives here
+                if callee in ("%ext:template_fn", "%ext:post_template_fn", "%ext:node_handler_fn"):
                     reach = True
         if reach:
             self.catch_boundaries += 1
@@ -233,10 +237,12 @@ class Balance(Flow):
                     file=self.relfile,
                     function=self.qual,
                     construct="loop@{} back edge via {}".format(_loop_label(loop), kind),
-                    message="one iteration of the loop changes the length of expand_stack by {:+d} "
-                    "(reached through `{}` at line {})".format(
-                        0 if state[0] == INF else int(state[0] - min(entry_deltas)), kind, getattr(via, "lineno", 0)
-                    ),
+                    message=("one iteration of the loop changes the length of expand_stack by {:+d} "
+                             "(reached through `{}` at line {})".format(int(state[0] - min(entry_deltas)), kind, getattr(via, "lineno", 0)))
+                    if state[0] != INF else
+                    ("one iteration of the loop can leave expand_stack longer by an unknown number of entries: an exception from a nested "
+                     "expansion is caught and the iteration goes on without cutting the path back to its length before the call "
+                     "(reached through `{}` at line {})".format(kind, getattr(via, "lineno", 0))),
                     line=getattr(via, "lineno", 0),
                     detail={"loop_line": loop.lineno, "delta": str(state[0]), "entry": [str(x) for x in sorted(entry_deltas)]},
                 )
